@@ -48,7 +48,7 @@ fn cold(evs: Vec<Ev>) -> Tl {
 
 pub fn eval_src(s: &Src, inp: &Inputs, o: Opts) -> Option<Tl> {
   Some(match s {
-    Src::Of(v) | Src::OfFn(v) | Src::Start(v) => cold(vec![Ev::N(v.clone()), Ev::C]),
+    Src::Of(v) | Src::OfFn(v) | Src::Start(v) | Src::FutureReady(v) => cold(vec![Ev::N(v.clone()), Ev::C]),
     Src::OfOption(Some(v)) => cold(vec![Ev::N(v.clone()), Ev::C]),
     Src::OfOption(None) => cold(vec![Ev::C]),
     Src::OfResult(Ok(v)) => cold(vec![Ev::N(v.clone()), Ev::C]),
